@@ -198,7 +198,7 @@ func checkFilterSubscriptionTable(c *Ctx) {
 						continue
 					}
 					if e.Fn != nil && fnName(e.Fn) == "filterSubscription.distributeEvents" {
-						a := e.Args[1]
+						a := sliceArg(e)
 						src := "OTHER:" + a.Key()
 						if a.K == "extract" && a.S == "0" && a.A[0].K == "invoke" && isOwnCache(a.A[0].A[0]) {
 							switch a.A[0].S {
